@@ -15,6 +15,15 @@ simple command that bash's DEBUG trap reports in the main shell becomes ONE inst
   * `vis`  : false for the one construct that runs without a main-shell DEBUG event (the
              subshell body of `uptodate`).
 
+Spellings with the same meaning are mapped to one canonical text before classification (section
+"spelling" below): backquotes ≡ $( ), ${X} ≡ $X, quotes around harmless literals / static path
+variables / right-hand sides of assignments, `test …` ≡ `[ … ]`, `:` ≡ `true`, `! cmd` (status
+negated: ok/fail continuations swapped), `function f {`, `local`/`readonly` in front of an assignment
+(status always 0; `local` only when every use of the variable lies inside the function after the
+declaration), any wording of an `echo` without redirection and without $( ); comments, blank lines,
+`;` and the order of independent assignments never mattered.  The tables are written as in today's
+script and are compared through the same canonicalisation.
+
 Also checked while translating (each failure is an error): every static path variable is defined,
 with the expected text, before it is used; commands that depend on the working directory are
 reached with the expected `cd`; each function is called from exactly one place.
